@@ -140,6 +140,10 @@ def deep_cert_lines(ctx):
 
 
 def run(ctx):
+    import clilib
+    clilib.stream(ctx, "cliverdict", gen.cliverdict_lines(ctx.rng.fork("cliverdict"), 0, 7, 400 if ctx.quick else 8000, (-1, 0, 1), 5, 5, 20, True),
+                  "cmr-tu: verdict line vs. the definition-level oracle on the matrix parsed from the input bytes",
+                  lambda c: gen.CLIVERDICT_CODES.get(c, str(c)))
     ctx.stream("tu", deep_cert_lines(ctx), "large 3-sum matrices, 'no' answers certified by their submatrix",
                judge_api="tu_cert", describe=lambda c: CODES.get(c, str(c)), nontrivial=nontrivial, keyfn=keyfn)
     ctx.stream("tu", pivoted_lines(ctx, 0), "pivoted presentations of signed regular matroids (R10, R12, 3-sums)",
